@@ -360,6 +360,9 @@ def run(ctx):
         ("jr:count", False, (("control", "jr:count"), ("control", "jr:count"))),
         ("bind::relevant", True, ("bind", ("bind", "relevant"))),
         ("constraint_message::fr", True, (("bind", "jr:constraintMsg"), ("bind", "jr:constraintMsg", "fr"))),
+        # a wrapped header cell, a tab or a no-break space between the words of a lower-case header
+        ("constraint\nmessage", False, (("bind", "jr:constraintMsg"), ("bind", "jr:constraintMsg"))), ("read\tonly", False, (("bind", "readonly"), ("bind", "readonly"))),
+        ("read\u00a0only", False, (("bind", "readonly"), ("bind", "readonly"))), ("required\n message", False, (("bind", "jr:requiredMsg"), ("bind", "jr:requiredMsg"))),
         ("my_filter", False, ("my_filter", ("my_filter",))),
         ("My Filter", False, ("My Filter", ("My Filter",))),
         ("hint", True, ("hint", ("hint",))),
@@ -406,6 +409,13 @@ def run(ctx):
                               ("double colons only", {"type": "text", "label::en": "L", "hint::fr": "H"}, {"type": "text", "label": {"en": "L"}, "hint": {"fr": "H"}}),
                               ("one double colon decides for the sheet", {"type": "text", "label::en": "L", "hint:fr": "H"}, {"type": "text", "label": {"en": "L"}, "hint:fr": "H"}),
                               ("double colon in a later column", {"type": "text", "hint:fr": "H", "bind::relevant": "1"}, {"type": "text", "hint:fr": "H", "bind": {"relevant": "1"}}),
+                              # a language is the name the author typed: names that differ by case, or by an accent, are
+                              # two languages, whichever column comes first
+                              ("language names differing by case", {"type": "text", "label::French": "L", "hint::french": "H"}, {"type": "text", "label": {"French": "L"}, "hint": {"french": "H"}}),
+                              ("language names differing by case, other order", {"type": "text", "hint::french": "H", "label::French": "L", "label::english": "E"},
+                               {"type": "text", "hint": {"french": "H"}, "label": {"French": "L", "english": "E"}}),
+                              ("the same language on three columns", {"type": "text", "label::fr": "L", "hint::fr": "H", "constraint_message::fr": "M"},
+                               {"type": "text", "label": {"fr": "L"}, "hint": {"fr": "H"}, "bind": {"jr:constraintMsg": {"fr": "M"}}}),
                               ("no delimiter at all", {"type": "text", "label": "L"}, {"type": "text", "label": "L"})):
         itd = ctx.interp("C13.R3", hooks={"new:DealiasAndGroupHeadersResult": lambda i, a, k, n: dict(k) if k else {"headers": a[0], "data": a[1]}})
         itd.reset([])
